@@ -22,7 +22,7 @@ PROP = "C24"
 META = {
     "level": "exploration",
     "technique": "reference token decoder vs. handler-ran flag over harvested, re-masked, cross-session, single-byte-mutated and arbitrary cookie/token pairs through the real server",
-    "level_text": "Cookie/token pairs (tokens issued by the running application for both cookie versions, reference re-maskings, other sessions' tokens, every kind of single-byte mutation of token and cookie, arbitrary strings, empty secrets) are submitted as form field, query argument, X-XSRFToken or X-CSRFToken with POST/PUT/DELETE/PATCH and with methods the handler adds to SUPPORTED_METHODS (WebDAV-style, extension and GET/HEAD/OPTIONS look-alike names) through HTTPServer; the handler-ran flag and the status are compared with an independent decoder of the hex and 2|mask|masked|ts formats.",
+    "level_text": "Cookie/token pairs (tokens issued by the running application for both cookie versions, reference re-maskings, other sessions' tokens, every kind of single-byte mutation of token and cookie, arbitrary strings, empty secrets, and tokens / cookies whose version or timestamp field has 20 to 20000 decimal digits, i.e. around and beyond the interpreter's 4300-digit int conversion limit) are submitted as form field, query argument, X-XSRFToken or X-CSRFToken with POST/PUT/DELETE/PATCH and with methods the handler adds to SUPPORTED_METHODS (WebDAV-style, extension and GET/HEAD/OPTIONS look-alike names) through HTTPServer; the handler-ran flag and the status are compared with an independent decoder of the hex and 2|mask|masked|ts formats.",
     "level_note": "Trusts the 25-line reference decoder. Not judged (executed, safety only): tokens or cookies that are neither well-formed hex nor '2|'-prefixed (legacy raw-token fallback), mask lengths other than 4 bytes, non-decimal timestamps, characters outside VCHAR, several token sources in one request, non-UTF-8 form fields (400 or 403 accepted).",
     "design_ref": "DESIGN.md §4 C24",
     "engine": "wire",
@@ -36,7 +36,9 @@ ASSUMPTIONS = ["reference decoder of the two XSRF token formats is correct",
                "one token source per request", "cookie values contain no ';', quotes or whitespace"]
 REQUIRED_COUNTERS = ["oracle_evals", "expect_accept", "expect_reject", "issued_token_evals", "ran_flag_set",
                      "safety_evals", "unspecified_pairs", "extension_method/expect_accept",
-                     "extension_method/expect_reject", "extension_method/issued_token_evals"]
+                     "extension_method/expect_reject", "extension_method/issued_token_evals", "over_4300_digit_field_evals",
+                     "over_4300_digit_field/form", "over_4300_digit_field/query", "over_4300_digit_field/x-xsrftoken",
+                     "over_4300_digit_field/x-csrftoken", "over_4300_digit_field/cookie"]
 
 METHODS = ["POST", "PUT", "DELETE", "PATCH"]
 # "a non-GET/HEAD/OPTIONS request": whatever else a handler declares in SUPPORTED_METHODS is covered as well --
@@ -164,9 +166,68 @@ _ODD = ["", "2|", "2||", "2|||", "2||||", "2|00000000||0", "2|00000000|00|0", "3
         "ab" * 5000, "é", "2|00000000|é|0", "00 ", "a" * 17]
 
 
+# Version / timestamp fields written with more decimal digits than int() converts (sys.get_int_max_str_digits(),
+# 4300 by default): syntactically '<digits>|...' like any other unknown version.
+HUGE_LENS = [50, 640, 641, 4299, 4300, 4301, 4302, 5000, 9000, 20000]
+MAX_PAIR_CHARS = 48000      # cookie + token stay well inside the server's 64 KiB request-head limit
+
+
+def _digits(rng, first="123456789", cap=20000):
+    L = min(cap, rng.choice(HUGE_LENS) if rng.random() < 0.85 else rng.randint(20, 12000))
+    k = rng.random()
+    if k < 0.3:
+        return rng.choice(first) + "0" * (L - 1)          # 2000...0, 1000...0
+    if k < 0.5:
+        return "9" * L
+    if k < 0.65:
+        return "2" * L
+    return rng.choice(first) + "".join(rng.choice("0123456789") for _ in range(L - 1))
+
+
+def _huge_form(rng, secret):
+    """A token / cookie string with a very long decimal field."""
+    D = _digits(rng)
+    good = ref_encode_v2(secret, rng.randbytes(4), rng.choice([0, 7, 1700000000]))
+    k = rng.random()
+    if k < 0.5:
+        # version field; the rest is anything from nothing to a well-formed v2 tail for the right secret
+        tail = rng.choice(["", "0", "00", "|", "||", "00000000|00|0", good[2:], good[2:], secret.hex(), "abc|def"])
+        return D + "|" + tail
+    if k < 0.6:
+        return _digits(rng, cap=5000) + "|" + _digits(rng, cap=5000) + "|" + tail_hex(rng) + "|" + _digits(rng, cap=5000)
+    if k < 0.85:
+        # version 2 with a timestamp of that many digits
+        return good.rsplit("|", 1)[0] + "|" + rng.choice(["", "0", "00"]) + D
+    # leading zeros before the version (not a version prefix at all)
+    return "0" * rng.choice([1, 4300, 5000]) + rng.choice(["2", D]) + "|" + good[2:]
+
+
+def tail_hex(rng):
+    return rng.randbytes(rng.choice([0, 1, 4, 16])).hex()
+
+
 def _rand_pair(rng):
     k = rng.random()
     secret = _rand_secret(rng)
+    if 0.75 <= k < 0.79:
+        base = _tok(rng, secret)
+        which = rng.random()
+        if which < 0.5:
+            cookie, token = base, _huge_form(rng, secret)
+        elif which < 0.85:
+            cookie, token = _huge_form(rng, secret), base
+        else:
+            cookie = _huge_form(rng, secret)
+            token = cookie if rng.random() < 0.5 else _huge_form(rng, secret)
+            for _ in range(50):
+                if len(cookie) + len(token) <= MAX_PAIR_CHARS:
+                    break
+                cookie = _huge_form(rng, secret)
+                token = cookie if rng.random() < 0.5 else _huge_form(rng, secret)
+            else:
+                token = "9" * 4301 + "|"
+        return {"k": "pair", "appver": rng.choice([1, 2]), "cookie": cookie, "token": token,
+                "chan": rng.choice(CHANNELS), "method": pick_method(rng)}
     if k < 0.25:
         cookie, token = _tok(rng, secret), _tok(rng, secret)
     elif k < 0.33:
@@ -227,6 +288,13 @@ def directed_cases():
         yield {"k": "pair", "appver": 2 - i % 2, "cookie": "ab" * 16, "token": "cd" * 16, "chan": CHANNELS[i % len(CHANNELS)], "method": m}
         yield {"k": "pair", "appver": 1 + i % 2, "cookie": "ab" * 16, "token": ref_encode_v2(b"\xab" * 16, b"\x01\x02\x03\x04", 7),
                "chan": CHANNELS[(i + 1) % len(CHANNELS)], "method": m}
+    # '<digits>|...' with more digits than int() converts: an unknown version like any other -> 403, through every channel
+    good = ref_encode_v2(b"\xab" * 16, b"\x01\x02\x03\x04", 7)
+    for i, chan in enumerate(CHANNELS):
+        yield {"k": "pair", "appver": 1 + i % 2, "cookie": "ab" * 16, "token": "9" * 5000 + "|" + good[2:], "chan": chan, "method": "POST"}
+        yield {"k": "pair", "appver": 2 - i % 2, "cookie": "2" + "0" * 4300 + "|00", "token": good, "chan": chan, "method": "PUT"}
+        yield {"k": "pair", "appver": 1 + i % 2, "cookie": "ab" * 16, "token": good + "9" * 4300, "chan": chan, "method": "POST"}
+    yield {"k": "pair", "appver": 2, "cookie": "1" * 4301 + "|", "token": "1" * 4301 + "|", "chan": "form", "method": "DELETE"}
     yield {"k": "session", "appver": 1, "eseed": 1, "edits": 20}
     yield {"k": "session", "appver": 2, "eseed": 2, "edits": 20}
 
@@ -274,6 +342,10 @@ async def submit(ctx, sess, appver, cookie, token, chan, method, origin="generat
         headers.append((chan, token))
         body = b""
     raw = webrig.build_request(method, target, headers, body)
+    if len(raw) - len(body or b"") > 60000:
+        # the request head would exceed the HTTP layer's max_header_size: refused before any handler exists
+        ctx.count("skipped_request_head_over_http_limit")
+        return None
     try:
         r = await s.request(raw, method)
     except webrig.WireError as e:
@@ -283,7 +355,12 @@ async def submit(ctx, sess, appver, cookie, token, chan, method, origin="generat
     RAN.discard(rid)
     if ran:
         ctx.count("ran_flag_set")
-    wit = {"cookie": cookie, "token": token, "channel": chan, "method": method, "xsrf_cookie_version": appver,
+    for what, val in (("token", token), ("cookie", cookie)):
+        run = max((len(x) for x in re.findall(r"[0-9]+", val or "")), default=0) if val and "|" in val else 0
+        if run > 4300:
+            ctx.count("over_4300_digit_field_evals")
+            ctx.count("over_4300_digit_field/" + (chan.lower() if what == "token" else "cookie"))
+    wit = {"cookie": _short(cookie), "token": _short(token), "channel": chan, "method": method, "xsrf_cookie_version": appver,
            "status": r.status if r else None, "handler_ran": ran, "origin": origin,
            "ref_cookie": _show(ref_decode(cookie)), "ref_token": _show(ref_decode(token))}
     webrig.safety(ctx, s, r, "XSRF-checked request")
@@ -337,6 +414,14 @@ async def submit(ctx, sess, appver, cookie, token, chan, method, origin="generat
     if ctx.mark((appver, cookie, token, chan, method), nontriv) and nontriv and exp == "reject" and ref_decode(token)[0] == "ok":
         ctx.sample(wit)
     return r.status, ran
+
+
+def _short(v):
+    """Witness form of a very long value (the case keeps the full one for replay)."""
+    if v is None or len(v) <= 160:
+        return v
+    runs = [len(x) for x in re.findall(r"[0-9]+", v)]
+    return "%s...<%d characters, longest digit run %d>...%s" % (v[:24], len(v), max(runs, default=0), v[-48:])
 
 
 def _show(d):
@@ -434,6 +519,16 @@ async def run_session_case(case, ctx, sess):
                 continue
             ctx.count("single_byte_edit_pairs")
             if rng.random() < 0.7:
+                await submit(ctx, sess, rng.choice([1, 2]), c0, w, *cm(), origin="edited-token")
+            else:
+                await submit(ctx, sess, rng.choice([1, 2]), w, t0, *cm(), origin="edited-cookie")
+    # 5b. the issued token / cookie with its version or timestamp field blown up to thousands of digits
+    for bt in [x for x in [t0] + issued if x.count("|") == 3][:2] + [secret.hex() + "|"]:
+        for _ in range(3):
+            D = _digits(rng)
+            head, _, rest = bt.partition("|")
+            w = rng.choice([D + "|" + rest, head + D[1:] + "|" + rest, bt.rsplit("|", 1)[0] + "|" + D])
+            if rng.random() < 0.65:
                 await submit(ctx, sess, rng.choice([1, 2]), c0, w, *cm(), origin="edited-token")
             else:
                 await submit(ctx, sess, rng.choice([1, 2]), w, t0, *cm(), origin="edited-cookie")
